@@ -211,6 +211,7 @@ pub fn run(run: &mut Run) {
     // encoder-call sequences (ENCSEQ): what the last call of every sequence produced must round-trip
     super::encprops::sweep_encseq(run, "C01");
     super::encprops::sweep_encdeep(run, "C01");
+    super::encprops::sweep_enc_thrash(run, "C01");
     // every 128 x 128 (sender, destination) pair for the basic tuples, decoded by the *addressee*
     // (a context at the destination address) and by a context holding the sender's address as EID
     {
@@ -239,6 +240,48 @@ pub fn run(run: &mut Run) {
             }
         });
     }
+    // receivers in every state reached by <= 2 run-length symbols (an event repeated 1..17 times):
+    // the library's own packets must still be accepted whatever the receiver went through
+    {
+        let rcfg = Cfg { addr: 0x2A, msg_types: vec![0x7E, 0x05], vendors: vec![(0, 0x1414, 4), (1, 0xDEADBEEF, 9)] };
+        let ev = super::stateprops::runseq_events(&rcfg);
+        let reps = super::stateprops::RUN_REPEATS;
+        let ns = (ev.len() * reps.len()) as u64;
+        let calls: Vec<EncCall> = vec![
+            EncCall::Vendor { fmt: 0, data: 0x1AF4, num: 4, msg: vec![0x11, 0x22, 0x33] },
+            EncCall::Raw { half: Half::Req, writer: Writer::Spdm, hdr: None, data: vec![0x10, 0x84, 0x00, 0x00] },
+            EncCall::ReqGetVersion { q: 0 },
+            EncCall::RespVersion { cc: 0 },
+            EncCall::RespUuid { cc: 3, uuid: U2 },
+        ];
+        let nc = calls.len() as u64;
+        run.sweep("5 calls x receivers after every history of <= 2 run-length symbols (11 events x 9 repeat counts)", nc * (1 + ns + ns * ns), |acc, i| {
+            let call = &calls[(i % nc) as usize];
+            let mut r = i / nc;
+            let mut hist: Vec<Event> = vec![];
+            let syms: Vec<u64> = if r == 0 {
+                vec![]
+            } else if r <= ns {
+                vec![r - 1]
+            } else {
+                r -= 1 + ns;
+                vec![r / ns, r % ns]
+            };
+            for s in syms {
+                for _ in 0..reps[(s % reps.len() as u64) as usize] {
+                    hist.push(ev[(s / reps.len() as u64) as usize].clone());
+                }
+            }
+            let spec = CtxSpec::fresh(Cfg::simple(0x23));
+            let so = Owned::new(&spec.cfg);
+            let sender = so.ctx();
+            let rspecs = vec![CtxSpec { cfg: rcfg.clone(), history: hist }, CtxSpec::fresh(Cfg::bare(0x6E))];
+            let ros: Vec<Owned> = rspecs.iter().map(|s| Owned::new(&s.cfg)).collect();
+            let rcs: Vec<MCTPSMBusContext> = ros.iter().zip(&rspecs).map(|(o, s)| build(o, &s.history)).collect();
+            let recv: Vec<(&str, &MCTPSMBusContext)> = vec![("addressee", &rcs[0]), ("addressee-with-sender-eid", &rcs[1])];
+            one(acc, &spec, &rspecs, &recv, &sender, call, 0x2A, i);
+        });
+    }
     let basic = basic_calls();
     let addrs = if tier.thorough() { Addrs::All7 } else { Addrs::List(vec![(0x23, 0x34), (0, 0), (0x7F, 0x7F), (0x55, 0x2A), (1, 0x7E), (0x34, 0x23), (0x7E, 0x01)]) };
     sweep(run, "30 kinds x 2 tuples x addresses", basic.len() as u64, &|i| basic[i as usize].clone(), &addrs);
@@ -256,7 +299,7 @@ pub fn replay(case: &Value) -> Result<ReplayOut, String> {
     let sender = build(&so, &spec.history);
     let ros: Vec<Owned> = rspecs.iter().map(|s| Owned::new(&s.cfg)).collect();
     let rcs: Vec<MCTPSMBusContext> = ros.iter().zip(&rspecs).map(|(o, s)| build(o, &s.history)).collect();
-    let names = if rspecs.len() == 2 { ["addressee", "addressee-with-sender-eid", "", "", "", ""] } else { ["fresh", "bare", "dirty", "own-config", "eid-equals-sender", "r5"] };
+    let names = if rspecs.len() == 2 { ["receiver-with-history", "other", "", "", "", ""] } else { ["fresh", "bare", "dirty", "own-config", "eid-equals-sender", "r5"] };
     let mut recv: Vec<(&str, &MCTPSMBusContext)> = rcs.iter().enumerate().map(|(k, c)| (names[k.min(5)], c)).collect();
     recv.push(("sender", &sender));
     let j = judge(&sender, &recv, spec.cfg.addr, build_ref(&spec).eid_resp, &call, dst, false, true);
